@@ -37,15 +37,15 @@ COMPONENTS = {
              "cutplace.rowio", "csv", "io stack", "zipfile", "xlrd"],
     "stub": ["SimFS (ENOENT, EISDIR) / SimRaw", "peers"],
 }
-PROBES_REQUIRED = ["cid:valid", "cid:rejected", "cid:missing", "cid:directory", "file:accepted", "file:rejected-field",
+PROBES_REQUIRED = ["limit-with-header", "cid:valid", "cid:rejected", "cid:missing", "cid:directory", "file:accepted", "file:rejected-field",
                    "file:rejected-unique", "file:sibling", "file:missing", "file:directory", "until:absent", "until:-1",
                    "until:0", "until:k", "args-malformed", "rejected-and-unreadable-in-one-list", "exit:0", "exit:1",
                    "exit:3", "three-files"]
 BAD_ARGS = [[], ["--bogus"], ["--until", "x", "cid.csv"], ["--until", "-2", "cid.csv"], ["--until"], ["--log", "loud", "cid.csv"]]
 
 
-def _spec(fmt):
-    return {"format": fmt, "header": 0, "sep": ":", "line_delimiter": "lf",
+def _spec(fmt, header=0):
+    return {"format": fmt, "header": header, "sep": ":", "line_delimiter": "lf",
             "fields": [{"name": "id", "type": "Integer"}, {"name": "name", "type": "Text"}],
             "checks": [["uniq", "IsUnique", "id"]]}
 
@@ -80,7 +80,7 @@ def generate(seed, tier):
     order2 = list(range(len(files)))
     rng.shuffle(order2)
     return {"io": simfs.IoConfig.draw(swarm), "format": fmt, "cid_kind": swarm.choice(CID_KINDS), "files": files,
-            "until": until, "k": rng.randint(1, 3), "order2": order2,
+            "until": until, "k": rng.randint(1, 4), "order2": order2, "header": swarm.choice([0, 0, 1]),
             "cid_defect": swarm.choice(["unknown-type", "duplicate-field", "check-before-field"])}
 
 
@@ -98,7 +98,7 @@ def _call_main(argv):
 
 
 def _cid_rows(scenario):
-    rows = tabular.cid_rows(_spec(scenario["format"]))
+    rows = tabular.cid_rows(_spec(scenario["format"], scenario.get("header", 0)))
     if scenario["cid_kind"] == "rejected":
         defect = scenario.get("cid_defect", "unknown-type")
         if defect == "unknown-type":
@@ -131,7 +131,7 @@ def execute(scenario):
         return result
 
     fmt = scenario["format"]
-    spec = _spec(fmt)
+    spec = _spec(fmt, scenario.get("header", 0))
     cid_kind = scenario["cid_kind"]
     until = scenario["until"]
     limit = None if until in ("absent", "-1") else (0 if until == "0" else scenario["k"])
@@ -147,7 +147,7 @@ def execute(scenario):
             if entry["kind"] == "directory":
                 fs.mkdir(path)
             elif entry["kind"] != "missing":
-                tabular.store(fs, path, spec, entry["table"])
+                tabular.store(fs, path, spec, [["id", "nam"]] * spec["header"] + entry["table"])
         # ---- per-file verdicts through the API, fresh Cid each --------------------------------
         from cutplace import errors, validio
 
@@ -205,6 +205,8 @@ def execute(scenario):
     for entry in scenario["files"]:
         result.probe("file:" + entry["kind"])
     result.probe("until:" + until)
+    if scenario.get("header") and until == "k":
+        result.probe("limit-with-header")
     if len(scenario["files"]) == 3:
         result.probe("three-files")
     for outcome in outcomes:
@@ -253,6 +255,8 @@ def candidates(scenario):
         yield candidate
     if scenario["until"] != "absent":
         yield lib.with_value(scenario, ["until"], "absent")
+    if scenario.get("header"):
+        yield lib.with_value(scenario, ["header"], 0)
     if scenario["format"] != "delimited":
         yield lib.with_value(scenario, ["format"], "delimited")
     if scenario["cid_kind"] != "valid":
